@@ -604,14 +604,26 @@ def eval_cmd(ctx, case: dict, work: pathlib.Path):
                 argv += ['-f', fmt]
 
             def library():
-                from emsarray.cli.commands import export_geometry as eg
+                from emsarray.operations import geometry
+                writer = {'geojson': geometry.write_geojson, 'shapefile': geometry.write_shapefile,
+                          'wkt': geometry.write_wkt, 'wkb': geometry.write_wkb}[case['expect_format']]
                 ds = emsarray.open_dataset(inp)
                 target = lib_dir / out_name
-                eg.format_writers[case['expect_format']](ds, target)
+                writer(ds, target)
                 ds.close()
                 return geometry_files(target)
         else:
             raise ValueError(cmd)
+        if scenario == 'missing-outdir':
+            # the write step is reached only if the library calls before it go through on this dataset
+            try:
+                library()
+            except Exception as e:  # noqa
+                from emsarray.operations.point_extraction import NonIntersectingPoints
+                kind = 'os' if isinstance(e, OSError) else 'command' if isinstance(e, NonIntersectingPoints) else 'uncaught'
+                lib_step = {'clip': 'clip', 'extract-points': 'extract-dataframe', 'export-geometry': 'polygons'}[cmd]
+                case = dict(case, step=lib_step, failure=kind, write_step=False)
+                ctx.count('cmd:write-scenario-stopped-by-library')
         if scenario == 'unknown-option':
             argv.append('--definitely-not-an-option')
         if scenario == 'missing-argument':
@@ -1061,29 +1073,49 @@ def subprocess_sample(ctx, work: pathlib.Path) -> None:
     import emsarray
     rng = ctx.rng
     src = str(pathlib.Path(emsarray.__file__).resolve().parent.parent)
-    env = dict(os.environ, PYTHONPATH=src + os.pathsep + os.environ.get('PYTHONPATH', ''), PYTHONWARNINGS='ignore')
+    env = dict(os.environ, PYTHONPATH=src + os.pathsep + os.environ.get('PYTHONPATH', ''), PYTHONWARNINGS='ignore',
+               DASK_SCHEDULER='synchronous')
     d = pathlib.Path(tempfile.mkdtemp(prefix='sub', dir=work))
+    outd = d / 'out'
+    outd.mkdir()
+
+    def clear():
+        for f in outd.iterdir():
+            f.unlink()
     for conv in G.CONVS:
         rec = dataset_recipe(rng, conv, 'quick', for_clip=True)
         inp = d / f'{conv}.nc'
         b = build_dataset(rec, inp)
         vals = clip_geometry_for(b, rng)
         text = ','.join(fmt_number(rng, v) for v in vals)
+        csv = d / f'{conv}.csv'
+        import pandas as pd
+        pd.DataFrame(points_table(rng, b, 2, 1, ['lon', 'lat'])).to_csv(csv, index=False)
         runs = [
-            (['clip', '--', str(inp), text, str(d / f'{conv}-clip.nc')], d / f'{conv}-clip.nc'),
-            (['export-geometry', str(inp), str(d / f'{conv}.geojson')], d / f'{conv}.geojson'),
-            (['export-geometry', str(inp), str(d / f'{conv}.nope')], d / f'{conv}.nope'),
-            (['clip', str(inp), 'nope', str(d / f'{conv}-bad.nc')], d / f'{conv}-bad.nc'),
+            (['clip', '--', str(inp), text, str(outd / 'clip.nc')], outd / 'clip.nc'),
+            (['export-geometry', str(inp), str(outd / 'geom.geojson')], outd / 'geom.geojson'),
+            (['export-geometry', str(inp), str(outd / 'geom.shp')], outd / 'geom.shp'),
+            (['export-geometry', str(inp), str(outd / 'geom.nope')], outd / 'geom.nope'),
+            (['clip', str(inp), 'nope', str(outd / 'bad.nc')], outd / 'bad.nc'),
+            (['extract-points', str(inp), str(csv), str(outd / 'pts.nc'), '--missing-points', 'drop'], outd / 'pts.nc'),
+            (['extract-points', str(inp), str(csv), str(outd / 'pts.nc')], outd / 'pts.nc'),
         ]
         for argv, outp in runs:
+            clear()
             p = subprocess.run([sys.executable, '-m', 'emsarray', *argv], capture_output=True, text=True, env=env, timeout=600)
             sub_files = geometry_files(outp)
-            for f in list(outp.parent.glob(outp.stem + '.*')):
-                f.unlink()
+            sub_ds = None
+            if outp.suffix == '.nc' and outp.exists():
+                import xarray as xr
+                sub_ds = xr.open_dataset(outp)
+                sub_ds.load()
+                sub_ds.close()
+            clear()
             code, err, _ = run_main(argv)
             here_files = geometry_files(outp)
             ctx.evaluated()
             ctx.count('subprocess')
+            ctx.nontrivial(('subprocess', conv, tuple(a.replace(str(d), '.') for a in argv)))
             desc = {'case': {'k': 'subprocess', 'recipe': rec, 'argv': [a.replace(str(d), '.') for a in argv]}}
             if p.returncode != code:
                 ctx.oracle_fail('subprocess-exit-differs', desc,
@@ -1096,8 +1128,11 @@ def subprocess_sample(ctx, work: pathlib.Path) -> None:
                 ctx.oracle_fail('subprocess-output-differs', desc, f'{sorted(sub_files)} vs {sorted(here_files)}')
             elif outp.suffix != '.nc' and sub_files != here_files:
                 ctx.oracle_fail('subprocess-output-differs', desc, 'geometry files differ byte for byte')
-            for f in list(outp.parent.glob(outp.stem + '.*')):
-                f.unlink()
+            elif sub_ds is not None:
+                diff = compare_datasets(sub_ds, outp)
+                if diff is not None:
+                    ctx.oracle_fail('subprocess-output-differs', desc, diff)
+    clear()
 
 
 def replay(ctx, data) -> int:
